@@ -267,8 +267,16 @@ pub fn wdec(ctx: &mut Ctx, plan: DecPlan) {
             }
         }
         both_keys(ctx);
+        combined_scheme_order(ctx);
         negated_key_pairs(ctx);
         ed_small_order(ctx);
+        for (i, scheme) in [Scheme::Secp, Scheme::Ed, Scheme::Toy].into_iter().enumerate() {
+            if ctx.mine(5000 + i as u64) {
+                for (cls, m) in gen::giant_records(&pool(scheme)[0]) {
+                    judge_input(ctx, cls, &m, nt);
+                }
+            }
+        }
         // byte-value sweeps and ground signatures (special byte values inside keys, values, signatures)
         for (i, scheme) in [Scheme::Secp, Scheme::Ed, Scheme::Toy].into_iter().enumerate() {
             if !ctx.mine(1000 + i as u64) {
@@ -401,6 +409,40 @@ pub fn ed_small_order(ctx: &mut Ctx) {
                 Item::S(b"v4".to_vec()),
             ];
             judge_input(ctx, "ed-small-order-key", &gen::assemble_with_sig(&sig, &items), JudgeOpts { text: false });
+        }
+    }
+}
+
+/// Records carrying BOTH a valid secp256k1 and a valid ed25519 entry, and single-scheme records, decoded in
+/// orders that alternate which scheme resolved the previous record.
+pub fn combined_scheme_order(ctx: &mut Ctx) {
+    if !ctx.mine(6000) {
+        return;
+    }
+    let secp = RefKey::new(Scheme::Secp, crate::keys::secret_from(Scheme::Secp, 0xc01));
+    let ed = RefKey::new(Scheme::Ed, crate::keys::secret_from(Scheme::Ed, 0xc02));
+    let mk = |signer: &RefKey, with_secp: bool, with_ed: bool, seq: u64| {
+        let mut rec = Rec::minimal(*signer, seq);
+        rec.map.remove(&b"secp256k1"[..]);
+        rec.map.remove(&b"ed25519"[..]);
+        if with_secp {
+            rec.map.insert(b"secp256k1".to_vec(), Item::S(secp.pub_bytes()));
+        }
+        if with_ed {
+            rec.map.insert(b"ed25519".to_vec(), Item::S(ed.pub_bytes()));
+        }
+        rec.bytes()
+    };
+    let ed_only = mk(&ed, false, true, 1);
+    let secp_only = mk(&secp, true, false, 2);
+    let both_secp = mk(&secp, true, true, 3);
+    let both_ed = mk(&ed, true, true, 4);
+    for round in 0..3 {
+        for (cls, m) in [("order/ed-only", &ed_only), ("order/both-signed-secp", &both_secp), ("order/both-signed-ed", &both_ed), ("order/ed-only", &ed_only),
+                         ("order/both-signed-ed", &both_ed), ("order/secp-only", &secp_only), ("order/both-signed-secp", &both_secp), ("order/ed-only", &ed_only),
+                         ("order/both-signed-secp", &both_secp)] {
+            let _ = round;
+            judge_input(ctx, cls, m, JudgeOpts { text: false });
         }
     }
 }
